@@ -2,7 +2,7 @@
 CHECK = {
     "pkg": "cert", "files": ["cert/certgen_test.go", "cert/c02_test.go"], "run": "^TestC02",
     "quick": {"scale": 1, "shards": 1, "timeout": 600},
-    "thorough": {"scale": 12, "shards": 8, "timeout": 1800, "fuzz": [{"target": "FuzzC02Tamper", "seconds": 90}]},
+    "thorough": {"scale": 5, "shards": 8, "timeout": 1800, "fuzz": [{"target": "FuzzC02Tamper", "seconds": 90}]},
     "rule": "per case one valid certificate (v1/v2 x both curves, issued inside the constraints of a generated CA through Sign, "
             "or validly signed in high-S form) and 8 mutants of its standard, PEM or handshake encoding: semantic forgeries "
             "(exactly one identity field changed to another valid value, original signature kept: name, network address / "
